@@ -349,6 +349,20 @@ impl<B> Call<WithBody, B> {
         Ok(())
     }
 
+    /// Go to receiving the response without sending the body. This is for when
+    /// the server answers an expect-100 request with something else than 100.
+    pub(crate) fn into_receive_without_body(self) -> Call<RecvResponse, B> {
+        Call {
+            request: self.request,
+            analyzed: self.analyzed,
+            state: BodyState {
+                phase: Phase::RecvResponse,
+                ..self.state
+            },
+            _ph: PhantomData,
+        }
+    }
+
     pub(crate) fn is_prelude(&self) -> bool {
         self.state.phase.is_prelude()
     }
